@@ -143,7 +143,7 @@ def validateDoscmint (env : Env) (s : State) (rel : Relevant) (tx : Tx) : Outcom
           | none => .reject .invalidMelPoW
           | some difficulty =>
             if !tx.powProofParses then .reject .malformedTx
-            else match env.powOk (env.hdrHash seedHdr) coinId difficulty tx.data with
+            else match env.powOk (env.hdrHash seedHdr) coinId difficulty tx.hash with
               | .panics => .crash "melpow: Proof::verify panicked"
               | .invalid => .reject .invalidMelPoW
               | v =>
